@@ -1,9 +1,7 @@
 SPECIFICATION Spec
-CONSTANTS MaxRuns = 3 MaxTouch = 2
-  Scens <- ScenPlain2
-  Settings <- SettingsAll
+CONSTANTS
+  Plans <- PlansThoroughMC2
   CreatedSetsChanged = TRUE
-  Reuses = {FALSE, TRUE}
   AutoReload = TRUE
   KeepHistory = FALSE
 VIEW view
